@@ -53,6 +53,7 @@ NoFault == fault = "none"
 IteratorsAgree == pc \in {"loop1", "loop2", "done"} =>
    [x \in 1..Len(nel) |-> SubSeq(s, nel[x][1], nel[x][2])] = SelectSeq(ls, LAMBDA l : Len(l) > 0)
 Ev == [ev |-> "unfill", s |-> s, text |-> text, ii |-> ii, si |-> si, width |-> width, crlf |-> (det = "crlf"),
+       hk |-> << <<width, ByteLen(ii), ByteLen(si)>> >>,
        status |-> (IF fault = "none" THEN "ok" ELSE "panic")]
 AllOk(cs) == \A x \in 1..Len(cs) : cs[x].ok \/ (PrintT(<<"FAILED", cs[x].p, cs[x].c, cs[x].r>>) /\ FALSE)
 PropUnfill == pc = "done" => AllOk(Judge_unfill(Ev))
